@@ -88,13 +88,32 @@ type c14Case struct {
 	Wire    bool   `json:"wire"`
 	Nest    int    `json:"nest,omitempty"` // instead of Request: n NOTs around Inner
 	Inner   string `json:"inner,omitempty"`
+	Cfg     int    `json:"cfg,omitempty"`    // server flag combination + 1 (0 = the default configuration)
+	Repeat  int    `json:"repeat,omitempty"` // the request is sent this many times before the probe
+}
+
+// c14SrvFlags decodes a flag combination: bit 0 cache off, bit 1 preloaded data, bit 2 verbose, bits 3-4 max-cache-size.
+func c14SrvFlags(cfg int) (cache, preload bool, extra []string) {
+	if cfg&4 != 0 {
+		extra = append(extra, "-v")
+	}
+	extra = append(extra, [][]string{nil, {"--max-cache-size", "0"}, {"--max-cache-size", "1"}, {"--max-cache-size", "300"}}[(cfg>>3)&3]...)
+	return cfg&1 == 0, cfg&2 != 0, extra
 }
 
 func (c c14Case) sig() string {
 	if c.Nest > 0 {
 		return fmt.Sprintf("wire=%v request=%d nested NOTs around %s", c.Wire, c.Nest, c.Inner)
 	}
-	return fmt.Sprintf("wire=%v request=%s", c.Wire, c.Request)
+	s := fmt.Sprintf("wire=%v request=%s", c.Wire, c.Request)
+	if c.Cfg > 0 {
+		ca, pre, extra := c14SrvFlags(c.Cfg - 1)
+		s += fmt.Sprintf(" server-flags=[enable-cache=%v preloaded=%v %s]", ca, pre, strings.Join(extra, " "))
+	}
+	if c.Repeat > 1 {
+		s += fmt.Sprintf(" sent-%d-times", c.Repeat)
+	}
+	return s
 }
 
 func reqJSON(r *updogv1.QueryRequest) string {
@@ -185,6 +204,7 @@ func c14ProbeOK(resp *updogv1.QueryResponse, err error) string {
 type c14Args struct {
 	Mode  string `json:"mode"` // inproc | wire
 	Depth int    `json:"depth"`
+	Cfg   int    `json:"cfg,omitempty"`
 }
 
 func c14Requests(e *pexpr, i int) []*updogv1.QueryRequest {
@@ -273,7 +293,12 @@ func c14Worker(ctx *rt.Ctx, job *rt.Job) []*rt.Violation {
 		return vs
 	}
 	// over the wire
-	srv := startServer(p, true, false)
+	cacheOn, preloadOn := true, false
+	if a.Mode == "configs" {
+		cacheOn, preloadOn, srvExtraArgs = c14SrvFlags(a.Cfg)
+		defer func() { srvExtraArgs = nil }()
+	}
+	srv := startServer(p, cacheOn, preloadOn)
 	defer func() { srv.stop() }()
 	try := func(r *updogv1.QueryRequest, c c14Case) {
 		c.Wire = true
@@ -316,8 +341,45 @@ func c14Worker(ctx *rt.Ctx, job *rt.Job) []*rt.Violation {
 			}
 			report(c, "the server process died: "+tail)
 			srv.stop()
-			srv = startServer(p, true, false)
+			srv = startServer(p, cacheOn, preloadOn)
 		}
+	}
+	if a.Mode == "configs" {
+		// every combination of the server's flags answers a short list: well-formed (plain, operators, grouped), rejected
+		// at execution, rejected as incomplete
+		short := []*updogv1.QueryRequest{
+			{Queries: []*updogv1.Query{{Expr: pEq("a", "x", 0)}}},
+			{Queries: []*updogv1.Query{{Expr: pNot(pOr(pEq("a", "x", 0), pEq("b", "1", 0))), GroupBy: []string{"a"}}}},
+			{Queries: []*updogv1.Query{{Expr: pAnd(pEq("a", "x", 0), pEq("nosuch", "1", 0))}}},
+			{Queries: []*updogv1.Query{{Expr: pOr(pEq("nosuch", "1", 0), pEq("nosuch", "2", 0))}}},
+			{Queries: []*updogv1.Query{{Expr: pEq("a", "x", 0), GroupBy: []string{"nosuch"}}}},
+			{Queries: []*updogv1.Query{{Expr: pNot(nil)}}},
+			{Queries: []*updogv1.Query{{}}},
+			{Queries: []*updogv1.Query{{Expr: pEq("a", "", 1)}}},
+			{Queries: []*updogv1.Query{{Expr: pEq("a", "x", 0)}, {Expr: pAnd()}, {Expr: pEq("a", "y", 0), GroupBy: []string{"b", "a"}}}},
+		}
+		for _, r := range short {
+			try(r, c14Case{Cfg: a.Cfg + 1})
+		}
+		ctx.Cov.Add("server_configurations", 1)
+		return vs
+	}
+	if a.Mode == "soak" {
+		// one server, the same rejected request many times in a row (whatever a rejected request leaves behind adds up)
+		kinds := []*updogv1.QueryRequest{
+			{Queries: []*updogv1.Query{{Expr: pAnd(pEq("a", "x", 0), pEq("nosuch", "1", 0))}}},
+			{Queries: []*updogv1.Query{{Expr: pEq("a", "x", 0), GroupBy: []string{"nosuch"}}}},
+			{Queries: []*updogv1.Query{{Expr: pEq("a", "x", 0)}, {Expr: pNot(nil)}}},
+			{Queries: []*updogv1.Query{{Expr: pEq("a", "", 1)}}},
+			{Queries: []*updogv1.Query{{Expr: pOr(pEq("a", "x", 0), pEq("a", "y", 0)), GroupBy: []string{"a", "b"}}}},
+		}
+		for _, r := range kinds {
+			for i := 0; i < 150 && len(vs) == 0; i++ {
+				try(r, c14Case{Repeat: i + 1})
+			}
+		}
+		ctx.Cov.Add("soak_requests", int64(150*len(kinds)))
+		return vs
 	}
 	for i, e := range exprs {
 		if i%job.NShards != job.Shard {
@@ -360,9 +422,14 @@ func c14Run(ctx *rt.Ctx) []*rt.Violation {
 		add(c14Args{Mode: "inproc", Depth: 2}, 8)
 		add(c14Args{Mode: "wire", Depth: 1}, 8)
 	}
+	add(c14Args{Mode: "soak"}, 1)
+	for cfg := 0; cfg < 32; cfg++ {
+		b, _ := json.Marshal(c14Args{Mode: "configs", Cfg: cfg})
+		jobs = append(jobs, rt.Job{Name: "configs", Shard: 0, NShards: 1, Args: b})
+	}
 	outs := rt.RunJobs(ctx, jobs, rt.SpawnOpt{})
 	vs := rt.Collect(ctx, outs, nil)
-	ctx.Cov.Note("rule", "expression space E(d): {oneof unset, Eq(col in known/unknown/empty, placeholder 0/1), Not without child, And(), Or()} closed under Not(e), And/Or of 1..2 operands, to depth d (|E(1)|=240, |E(2)|=115930); each as a single-query request and inside (valid, X, valid), with group-by in {none, known, unknown} and id 0/1; plus queries without expression, the empty request, and 100 / 4990 nested NOTs; in-process: encode+decode, ToQuery, Execute, ToProtobufResult under recover; wire: real `updog server`, after every request a well-formed probe must be answered correctly, a dead server is restarted and the enumeration continues")
+	ctx.Cov.Note("rule", "expression space E(d): {oneof unset, Eq(col in known/unknown/empty, placeholder 0/1), Not without child, And(), Or()} closed under Not(e), And/Or of 1..2 operands, to depth d (|E(1)|=240, |E(2)|=115930); each as a single-query request and inside (valid, X, valid), with group-by in {none, known, unknown} and id 0/1; plus queries without expression, the empty request, and 100 / 4990 nested NOTs; in-process: encode+decode, ToQuery, Execute, ToProtobufResult under recover; wire: real `updog server`, after every request a well-formed probe must be answered correctly, a dead server is restarted and the enumeration continues; one server additionally answers each of 5 rejected / grouped requests 150 times in a row (what a rejected request leaves behind adds up); all 32 combinations of the server flags {enable-cache, preloaded data, verbose, max-cache-size default/0/1/300} answer a short list of well-formed and rejected requests")
 	ctx.Assumef("random protobuf-valid byte strings are replaced by the structural enumeration (sampling is a different technique)")
 	ctx.Assumef("server liveness is observed as process exit; loopback TCP only")
 	return vs
@@ -390,9 +457,19 @@ func c14Replay(ctx *rt.Ctx, v *rt.Violation) *rt.Violation {
 		}
 		return nil
 	}
-	srv := startServer(p, true, false)
+	cacheOn, preloadOn := true, false
+	if c.Cfg > 0 {
+		cacheOn, preloadOn, srvExtraArgs = c14SrvFlags(c.Cfg - 1)
+		defer func() { srvExtraArgs = nil }()
+	}
+	srv := startServer(p, cacheOn, preloadOn)
 	defer srv.stop()
-	_, qerr := srv.query(r)
+	var qerr error
+	for i := 0; i < c.Repeat-1; i++ {
+		srv.query(r)
+		srv.query(c14NextProbe())
+	}
+	_, qerr = srv.query(r)
 	if qerr != nil && status.Code(qerr) == codes.Unavailable && srv.waitDead() {
 		return rt.NewViolation("C14", "request", c.sig(), c, "the server process died")
 	}
